@@ -25,6 +25,8 @@ void     vf_cut(double * p, int64_t n, const char * name);
 void     vf_cutf(float * p, int64_t n, const char * name);
 void     vf_observe_f64(const char * name, double v);
 void     vf_observe_i64(const char * name, int64_t v);
+// equality of two computed reals: exact in the symbolic domains, |a-b| <= 1e-9*max(1,|a|,|b|) on IEEE doubles
+bool     vf_eq(double a, double b);
 // fork one path per feasible value of v (engine); identity natively
 int64_t  vf_enum(int64_t v);
 // marks the end of an entry: reachability witness
